@@ -1,6 +1,7 @@
 """Check runner core: verdict bookkeeping, known findings, evidence files, exit codes."""
 import json
 import os
+import contextlib
 import sys
 import time
 import traceback
@@ -27,6 +28,24 @@ def _jsonable(x):
     if isinstance(x, bytes):
         return x.hex()
     return repr(x)
+
+
+@contextlib.contextmanager
+def library_debug_logging(on=True):
+    """Interpreter-state dimension: the library's loggers at DEBUG level (records go to a NullHandler).  What the library computes must not
+    depend on whether somebody listens to its log."""
+    import logging
+    lg = logging.getLogger('graphslam')
+    old, h = lg.level, logging.NullHandler()
+    if on:
+        lg.setLevel(logging.DEBUG)
+        lg.addHandler(h)
+    try:
+        yield
+    finally:
+        if on:
+            lg.setLevel(old)
+            lg.removeHandler(h)
 
 
 class Run:
